@@ -7,7 +7,7 @@ set -u
 patch="$(readlink -f "$1")"; shift
 wt=$(mktemp -d /tmp/verif-ben-XXXXXX)
 rmdir "$wt"
-git -C /repo worktree add -q --detach "$wt" HEAD || exit 2
+git -C /repo worktree add -q --detach "$wt" ${BENIGN_BASE:-HEAD} || exit 2
 trap 'git -C /repo worktree remove --force "$wt" >/dev/null 2>&1; rm -rf "$wt" "/verif/.work/alt-$(printf %s "$wt" | sha1sum | cut -c1-10)"; git -C /repo worktree prune' EXIT
 cd "$wt" || exit 2
 if ! git apply "$patch"; then echo "NOAPPLY $patch"; exit 2; fi
